@@ -147,8 +147,22 @@ func init() {
 		"the whole-volume invariants of the property (identical FAT copies, chains in range and terminated, no cross-linked or orphan clusters, sizes covered by chains, Create geometry, identical backup boot sector, sane FSInfo counters)",
 		"12-bit packing correctness of fat12WriteEntry/fat12ReadEntry (only freshness and length of Bytes are proved)",
 	}
-	propAssumptions["C12"] = []string{"partition.Read: GPT is probed before MBR (call-site assertions); filesystem probing in disk.GetFilesystem is not under contract"}
-	propNotDecided["C12"] = []string{"filesystem type recognition (disk.GetFilesystem and the per-filesystem Read acceptance tests)", "stale bytes of a previous filesystem", "labels and contents"}
+	propAssumptions["C12"] = []string{
+		"probe order is pinned by call-site assertions (each later probe is reached only with a non-nil error from the earlier one); FAT type thresholds by return-site assertions over the readers' own cluster-count computation",
+	}
+	propNotDecided["C12"] = []string{
+		"that an image created as type T is accepted by T's reader and rejected by every earlier probe (format-level reasoning across six filesystem types; fat32.Read, iso9660.Read, squashfs.Read, ext4.Read acceptance tests are not specified)",
+		"labels and contents of the recognised filesystem; stale bytes of a previous filesystem; blank ranges",
+	}
+	propAssumptions["C19"] = []string{
+		"time.Time calendar accessors are deterministic functions of the value within their calendar ranges; time.Date is trusted to build the time from the fields it is given",
+		"scope: the codec functions listed under functions_under_contract only",
+	}
+	propNotDecided["C19"] = []string{
+		"end-to-end persistence of attributes through Stat/ReadLink/getters after re-opening (ext4 setters and inode codec apart from the inline-symlink rule, FAT entry encoder and attribute byte, squashfs inode builder, Rock Ridge entries)",
+		"'changing one attribute of one file changes nothing else'; file kinds never confused",
+		"round trip dateTimeToTime(timeToDateTime(t)) as one lemma (both directions are pinned to the same bit layout separately)",
+	}
 }
 
 var propNotDecided = map[string][]string{
